@@ -37,6 +37,19 @@ func main() {
 			}
 		}
 		os.Exit(rc)
+	case "describe":
+		for _, id := range props.IDs() {
+			p := props.Get(id)
+			fmt.Printf("### %s %s\n\n", p.ID, p.Title)
+			fmt.Printf("**Decides.** %s\n\n", p.Explanation)
+			if p.NotCovered != "" {
+				fmt.Printf("**Not covered.** %s.\n\n", strings.TrimSuffix(p.NotCovered, "."))
+			}
+			if len(p.Trust) > 0 {
+				fmt.Printf("**Assumes.** %s.\n\n", strings.Join(p.Trust, "; "))
+			}
+			fmt.Printf("**Method.** %s. Loads: %s.\n\n", p.Technique, strings.Join(props.PatternsOf(id), " "))
+		}
 	case "patterns":
 		for _, id := range props.IDs() {
 			fmt.Println(id, strings.Join(props.PatternsOf(id), " "))
